@@ -1,6 +1,7 @@
 """C06 - permessage-deflate is lossless both ways for every negotiated configuration."""
 import random
 
+from .. import env
 from .. import gen
 from .. import harness as H
 from ..ref import ws as refws
@@ -150,6 +151,7 @@ def run_c2s(case, acc):
             sent.append((m, as_text, comp, rec))
 
     hs = dict(extra=[('Sec-WebSocket-Extensions', ext_header(cfg['sb'], cfg['cb'], cfg['snct'], cfg['cnct'], cfg['sp']))])
+    env.CASE_ENV['companion_ext'] = hs['extra'][0][1]
     w = H.World(H.hs_server([], hs))
     run = H.drive(w, ws_kwargs=dict(compress=True), connect_kwargs=dict(ping_rate=0), policy=policy)
     acc.count2('configs', 'c2s')
